@@ -11,6 +11,7 @@ KindsQ == K3 \cup {KCmd}
 KindsT == K3 \cup K5 \cup {KCmd}
 AlphaQ == {0, 1, 2, 3, 5}
 AlphaT == {0, 1, 2, 3, 5, 6, 7}
+AlphaG == {0, 1, 3, 5}
 SlacksQ == {0, 2}
 GrantsQ == {1, 2}
 GenInit == Init /\ hist = <<obs>>
